@@ -420,7 +420,10 @@ class LasData:
 
     def __getitem__(self, item):
         try:
-            item_is_list_of_str = all(isinstance(el, str) for el in iter(item))
+            # an empty index list selects no points, it is not a list of names
+            item_is_list_of_str = len(item) > 0 and all(
+                isinstance(el, str) for el in iter(item)
+            )
         except TypeError:
             item_is_list_of_str = False
 
